@@ -116,7 +116,7 @@ func bytesOf(v value) []value {
 	case string, *SymStr:
 		return strBytes(x)
 	}
-	panic(fmt.Sprintf("bytesOf: %T", v))
+	panic(fmt.Sprintf("symgo: internal: bytesOf: %T", v))
 }
 
 func allConcrete(b []value) bool {
@@ -374,7 +374,11 @@ func init() {
 		"(*crypto/sha256.digest).Size":      func(m *Machine, fr *frame, args []value) value { return 32 },
 		"(*crypto/sha256.digest).BlockSize": func(m *Machine, fr *frame, args []value) value { return 64 },
 		"github.com/cosmos/ics23/go.hashBz": func(m *Machine, fr *frame, args []value) value {
-			if asInt64(args[0]) != 5 { // crypto.SHA256
+			hv := args[0]
+			if it, ok := hv.(iface); ok { // hasher interface holding a crypto.Hash
+				hv = it.v
+			}
+			if asInt64(hv) != 5 { // crypto.SHA256
 				panic("symgo: ics23 hash other than SHA256")
 			}
 			return tuple{m.hashToken("sha256", bytesOf(args[1])), iface{}}
